@@ -159,6 +159,10 @@ class LlcPair(object):
             _install_recorder()
             for side in SIDES:
                 self.llc[side]._verif_rec = []
+        # False: xfer() does not let the application threads run to their
+        # next blocking point afterwards (as a link loop that goes from
+        # dispatch() straight into the next collect())
+        self.autosettle = True
         self.taps = []              # fn(frame) called before dispatch
         self.frames = 0
         self.boxes = []
@@ -209,7 +213,8 @@ class LlcPair(object):
                 raise Violation("collected-but-not-sent", "collect() at %s "
                                 "returned None after dequeuing %s"
                                 % (src, [str(q) for a, q in collected]))
-            self.sched.settle()
+            if self.autosettle:
+                self.sched.settle()
             return None
         try:
             raw = pdu.encode(p)
@@ -245,7 +250,8 @@ class LlcPair(object):
                               if k == "enq"]
             del d._verif_rec[:]
         self.frames += 1
-        self.sched.settle()
+        if self.autosettle:
+            self.sched.settle()
         return frame
 
     def inject(self, dst, p):
